@@ -31,10 +31,16 @@ def main() -> None:
             returns = dataset.write_multiprocessing(
                 feed_writer=H.feed_writer,
                 custom_arguments=[(writes, attr_set, k, w) for w, writes in enumerate(writers)],
-                custom_kwarguments=[{"delays": session.get("delays", {}).get(str(w))} for w in range(len(writers))],
+                custom_kwarguments=[{"delays": session.get("delays", {}).get(str(w)), "start_at": session.get("start_at")}
+                                    for w in range(len(writers))],
                 single_process=session.get("single_process", False))
             out["returns"] = returns
         else:
+            if spec.get("start_in") is not None:
+                import time
+                for session in spec["hist"]["sessions"]:
+                    if session["kind"] == "multi":
+                        session["start_at"] = time.time() + spec["start_in"]
             model = H.run_history(Path(spec["root"]), spec["hist"])
             session = model.sessions[-1]
             out["returns"] = session.returns
